@@ -16,7 +16,7 @@ Inductive exn_class :=
 Record exn := {
   e_class : exn_class;
   e_str : bytes;              (* str(e), UTF-8 *)
-  e_code : bytes;             (* str(e.client_error_code)   (credits-like classes) *)
+  e_code : Z;                 (* e.client_error_code, an int (credits-like classes) *)
   e_user_msg : pyval;         (* e.client_user_msg *)
   e_session : pyval           (* e.conflicting_session_id *)
 }.
@@ -50,9 +50,9 @@ Definition append_exceptions (response : bytes) (e : exn) (subtype : bool) : wre
           if Ascii.eqb l c_X then
             if isinstance e CConflictingSessionError then
               sid <~ encode_string (e_session e) ;;
-              WOk (response ++ join_pipe [[l]; msg; e_code e; um; sid])
+              WOk (response ++ join_pipe [[l]; msg; Z_to_dec (e_code e); um; sid])
             else WErr WOther            (* AttributeError *)
-          else WOk (response ++ join_pipe [[l]; msg; e_code e; um])
+          else WOk (response ++ join_pipe [[l]; msg; Z_to_dec (e_code e); um])
         else WErr WOther                (* AttributeError *)
       else WOk (response ++ join_pipe [[l]; msg])
   end.
@@ -119,7 +119,7 @@ Definition iter_of (v : pyval) : wres (list pyval) :=
   | PList l => WOk l
   | PDict d => WOk (map fst d)
   | PStr _ | PBytes _ => WErr WUnmodelled     (* iterates characters / ints *)
-  | _ => WErr WOther                          (* TypeError: not iterable *)
+  | _ => WErr WRemoting                       (* TypeError: not iterable -> RemotingException (fix 71617d3, finding F4) *)
   end.
 
 Fixpoint enc_each (f : pyval -> wres bytes) (l : list pyval) : wres (list bytes) :=
